@@ -192,7 +192,11 @@ def probe(M, path, anns, mode, is_method):
     else:
         if compiled:
             ts = getattr(f, '__text_signature__', None)
-            sigline = ('f' + ts) if ts else None
+            if ts:
+                sigline = 'f' + ts
+            elif doc and '\n--\n\n' in doc:
+                # not a type that understands text signatures: the clinic block is still at the top of __doc__
+                sigline, doc = doc.split('\n--\n\n', 1)
             out.append(['doc', doc or None])
         else:
             out.append(['doc', (_inspect.cleandoc(doc) or None) if doc else None])
